@@ -68,6 +68,31 @@ func (fc *funcContext) SetPos(pos token.Pos) {
 	fc.pos = pos
 }
 
+// setStmtPos makes the position of stmt the position of the code written next. Statements synthesized by the
+// compiler or by the simplifier (hoisted temporaries, $send calls, assignments to named results, ...) have no
+// position of their own: they keep the position of the statement they were derived from if it has just been
+// set, otherwise they take the position of the first original node they contain.
+func (fc *funcContext) setStmtPos(stmt ast.Stmt) {
+	pos := stmt.Pos()
+	if !pos.IsValid() {
+		if fc.posAvailable && fc.pos.IsValid() {
+			return
+		}
+		ast.Inspect(stmt, func(n ast.Node) bool {
+			if n == nil || pos.IsValid() {
+				return false
+			}
+			pos = n.Pos()
+			_, isFuncLit := n.(*ast.FuncLit)
+			return !pos.IsValid() && !isFuncLit
+		})
+		if !pos.IsValid() {
+			return
+		}
+	}
+	fc.SetPos(pos)
+}
+
 func (fc *funcContext) writePos() {
 	if fc.posAvailable {
 		fc.posAvailable = false
